@@ -62,19 +62,20 @@ def c14_history(a: int, b: int, c: int, boost: int, depth: int) -> bool:
     return ok
 
 
-def c14_xml_memory(times: int, nover: int) -> bool:
+def c14_xml_memory(times: int, nover: int, extra: int) -> bool:
     """
     With Doxygen XML supplied, wrapping the same text again on the same wrapper gives the same output
-    (overloads indistinguishable by parameter names are served in document order in every run).
-    pre: 1 <= times <= 3 and 1 <= nover <= 3
-    pre: not (kf_open('C14-xml-memory') and nover >= 2)
+    (overloads indistinguishable by parameter names are served in document order in every run) — also when the XML
+    documents more such overloads than the interface wraps.
+    pre: 1 <= times <= 3 and 1 <= nover <= 3 and 0 <= extra <= 2
+    pre: not (kf_open('C14-xml-memory') and nover + extra >= 2)
     post: _
     """
-    times, nover = pick(times, 1, 4), pick(nover, 1, 4)
+    times, nover, extra = pick(times, 1, 4), pick(nover, 1, 4), pick(extra, 0, 3)
     with concrete():
         text = "class A { " + " ".join("void f(%s key) const;" % t for t in ["int", "double", "string"][:nover]) + " };"
         w = mkw(0, xml="xmlsrc")
-        elems = [mk_member("f", [("key", False)], "doc%d" % i) for i in range(nover)]
+        elems = [mk_member("f", [("key", False)], "doc%d" % i) for i in range(nover + extra)]
         w.xml_parser.get_member_defs = lambda *a, **k: elems
         outs = []
         ok = True
@@ -85,7 +86,7 @@ def c14_xml_memory(times: int, nover: int) -> bool:
             ok = _fail(text=text, run=len(outs) + 1, exception=repr(ex))
         if ok and any(o != outs[0] for o in outs):
             ok = _fail(text=text, first=outs[0][-400:], later=[o[-400:] for o in outs[1:]])
-    reached({"times": times, "overloads": nover})
+    reached({"times": times, "overloads": nover, "documented": nover + extra})
     return ok
 
 
@@ -305,8 +306,18 @@ def _run_entry(entry, boost, root):
             w.wrap_submodule(srcs[1])
         else:
             os.chdir(root)
-            w = MatlabWrapper(module_name="mod", top_module_namespace=[''], ignore_classes=[''], use_boost_serialization=bool(boost))
-            w.wrap([srcs[0]], path="tb")
+            import builtins
+            import gtwrap.matlab_wrapper.wrapper as _mw
+            had, old = "open" in _mw.__dict__, _mw.__dict__.get("open")
+            _mw.open = pipe._TplOpen(builtins.open)          # real files; only the git-ignored template is supplied when absent
+            try:
+                w = MatlabWrapper(module_name="mod", top_module_namespace=[''], ignore_classes=[''], use_boost_serialization=bool(boost))
+                w.wrap([srcs[0]], path="tb")
+            finally:
+                if had:
+                    _mw.open = old
+                else:
+                    del _mw.open
     finally:
         os.chdir(cwd)
     out = {}
@@ -373,7 +384,7 @@ def conds(tier):
     return [
         xh.Cond(M, "c14_history", t(300, 1500), kind=sb, examples=["a=0, b=0, c=0, boost=1, depth=1", "a=1, b=0, c=4, boost=1, depth=2"],
                 bounds="%d-text pool, 0-2 earlier wrap_file calls, both serialization settings" % NT),
-        xh.Cond(M, "c14_xml_memory", t(120, 600), kind=sb, examples=["times=2, nover=1", "times=2, nover=2"], bounds="1-3 repeated runs x 1-3 indistinguishable overloads"),
+        xh.Cond(M, "c14_xml_memory", t(120, 600), kind=sb, examples=["times=2, nover=1, extra=0", "times=2, nover=2, extra=0", "times=3, nover=1, extra=1", "times=2, nover=2, extra=1"], bounds="1-3 repeated runs x 1-3 wrapped overloads with identical parameter names x 0-2 further documented ones"),
         xh.Cond(M, "c14_footprint", t(200, 900), kind=sb, examples=["which=0, boost=1, nfiles=3", "which=2, boost=0, nfiles=2"], bounds="3 entry points x serialization x 1-3 source files"),
         xh.Cond(M, "c14_source_order", t(120, 600), kind=sb, examples=["perm=0, boost=0", "perm=5, boost=1"], bounds="6 permutations of 3 additional files x serialization"),
         xh.Cond(M, "c14_previous_run", t(120, 600), kind=sb, examples=["r=0, swap=0", "r=2, swap=1"], bounds="%d revision pairs (same-length edits) x both orders, MATLAB output directory kept between the two runs" % len(REVISIONS)),
